@@ -206,26 +206,34 @@ func checkC19(c *Check) {
 	}
 	if sc := p.Func("container", "Builder.startContainer"); sc != nil {
 		ok := false
-		for _, ci := range callInstrs(sc) {
-			if _, callee := calleeOf(ci); callee != nil && inModule(callee) {
-				for _, c2 := range callInstrs(callee) {
-					if n2, _ := calleeOf(c2); strings.HasSuffix(n2, "Socket).SetPassCred") {
-						if v, isC := constInt(c2.Common().Args[1]); isC && v == 1 && errChecked(c2) {
-							// and it is the first (host) end
-							ok = true
-						}
-					}
-				}
-				if ok {
-					// precedes the start of the container process
-					for _, c3 := range callInstrs(sc) {
-						if n3, _ := calleeOf(c3); n3 == "(os/exec.Cmd).Start" {
-							ok = before(ci, c3)
-						}
-					}
-					break
+		isPass := func(c2 ssa.CallInstruction) bool {
+			if n2, _ := calleeOf(c2); strings.HasSuffix(n2, "Socket).SetPassCred") {
+				if v, isC := constInt(c2.Common().Args[1]); isC && v == 1 && errChecked(c2) {
+					return true
 				}
 			}
+			return false
+		}
+		// the option is set in startContainer itself or in a helper it calls; the (call site of the) setting precedes
+		// the start of the container process
+		for _, ci := range callInstrs(sc) {
+			found := isPass(ci)
+			if _, callee := calleeOf(ci); !found && callee != nil && inModule(callee) {
+				for _, c2 := range callInstrsDeep(callee, 1) {
+					if isPass(c2) {
+						found = true
+					}
+				}
+			}
+			if !found {
+				continue
+			}
+			for _, c3 := range callInstrs(sc) {
+				if n3, _ := calleeOf(c3); n3 == "(os/exec.Cmd).Start" {
+					ok = before(ci, c3)
+				}
+			}
+			break
 		}
 		c.Cond(ok, "4/construction", "container.startContainer:passcred", p.Pos(sc.Pos()), "SO_PASSCRED is enabled on the host end before the container is started", "the host end of the control socket does not enable SO_PASSCRED(1) before the container starts: the pid relayed with the sync message would not arrive")
 	}
